@@ -191,7 +191,7 @@ def prepare(workdir):
 
 
 # (a stray sub-directory is not something an earlier generator run could have left behind, so it is not planted)
-FAULT_KINDS = ["delete", "empty", "prefix", "stale_other", "stale_line", "extra_file", "delete_dir"]
+FAULT_KINDS = ["delete", "empty", "prefix", "stale_other", "stale_line", "flip_byte", "append_ws", "extra_file", "delete_dir"]
 CRASH_MANNERS = ["before", "truncate", "torn", "after", "enospc"]
 
 
@@ -254,6 +254,16 @@ def apply_fault(root, c, f):
                 j = f["arg"] % len(b)
                 b[j] = b[j] + b" /* stale */"
             open(p, "wb").write(b"\n".join(b) + b"\nSTALE TAIL\n")
+        elif kind == "flip_byte":
+            # same length, one byte different (near the end for odd args, anywhere otherwise)
+            b = bytearray(open(p, "rb").read())
+            if b:
+                j = (len(b) - 1 - (f["arg"] % min(len(b), 8))) if f["arg"] % 2 else f["arg"] % len(b)
+                b[j] = b[j] ^ 0x01 if b[j] not in (0x0A,) else 0x20
+                open(p, "wb").write(bytes(b))
+        elif kind == "append_ws":
+            with open(p, "ab") as fh:
+                fh.write(b" \n" if f["arg"] % 2 else b"\n\n")
         elif kind == "extra_file":
             os.makedirs(os.path.dirname(p), exist_ok=True)
             open(p, "w").write("// stale artefact of an earlier generator version\n")
